@@ -97,7 +97,25 @@ def run_sequence(sh, lab, cfg, ops, clocks, messages=None):
     import os
 
     os.environ["COLUMNS"] = "200"
+    cols = 200
     record = {"config": cfg, "ops": [list(o) for o in ops], "clocks": list(clocks), "messages": messages}
+    if cfg.get("cols") == "exact" and cfg["out"] == "section":
+        # a terminal exactly as wide as the bar's frame: the frame fills the row without wrapping
+        try:
+            scratch_stream = lab.RecStream()
+            scratch = lab.ProgressBar(lab.Output(scratch_stream, lab.AnsiFormatter(forced=True)), cfg["max"], cfg["minsec"])
+            scratch.set_bar_width(cfg["bw"])
+            if cfg.get("fmt"):
+                scratch.set_format(cfg["fmt"])
+                scratch.set_message("m0")
+            scratch.start()
+            first = CSI.sub("", scratch_stream.fetch()).replace("\r", "")
+            cols = max(len(l) for l in first.split("\n"))
+        except Exception as e:
+            sh.violate("raises", record, "measuring the first frame raised %r" % (e,))
+            return False
+        os.environ["COLUMNS"] = str(cols)
+        sh.count("sequences_on_a_terminal_as_wide_as_the_frame")
     st = lab.RecStream()
     kind = cfg["out"]
     if kind in ("ansi", "section", "quiet"):
@@ -105,7 +123,13 @@ def run_sequence(sh, lab, cfg, ops, clocks, messages=None):
     else:
         out = lab.Output(st, lab.PlainFormatter())
     target = out
+    title_rows = []
     if kind == "section":
+        if cfg.get("cols") == "exact":
+            # something above the bar's section: what the bar redraws must not reach into it
+            above = out.section()
+            above.write_line("TITLE ABOVE THE BAR"[:cols])
+            title_rows = ["TITLE ABOVE THE BAR"[:cols].rstrip()]
         target = out.section()
     target.set_verbosity(cfg["verbosity"])
     out.set_verbosity(cfg["verbosity"])
@@ -138,7 +162,11 @@ def run_sequence(sh, lab, cfg, ops, clocks, messages=None):
     finished = False
     last_frame_step = None
     last_frame_bar = None
-    term = Term(200) if kind in ("ansi", "section") else None
+    term = Term(cols) if kind in ("ansi", "section") else None
+    if term is not None and title_rows:
+        for e in st.events:
+            if e[0] == "w":
+                term.feed(e[2])
     plain_frames = []
     for i, op in enumerate(ops):
         CLOCK.advance(clocks[i])
@@ -205,6 +233,10 @@ def run_sequence(sh, lab, cfg, ops, clocks, messages=None):
                 last_write = t
                 continue
             body = visible.strip("\n")
+            if cols != 200 and any(len(l) > cols for l in body.split("\n")):
+                # the frame has outgrown the terminal it was measured for (more digits): wrapping frames are outside the statement
+                sh.count("exact_width_sequences_outgrown")
+                return nframes_total >= 2
             if kind == "plain":
                 if "\x1b" in text or "\r" in text:
                     sh.violate("plain-control-codes", record, "plain output received control codes: %r" % text)
@@ -258,8 +290,8 @@ def run_sequence(sh, lab, cfg, ops, clocks, messages=None):
                 if [r.rstrip() for r in rows] != tail:
                     sh.violate("residue", record, "op #%d %r: terminal shows %r, latest frame is %r" % (i, op, tail, rows))
                     return False
-                if kind == "section" and len(scr) != len(rows):
-                    sh.violate("residue", record, "section shows %d rows %r for a %d-row frame" % (len(scr), scr, len(rows)))
+                if kind == "section" and [r.rstrip() for r in scr] != title_rows + [r.rstrip() for r in rows]:
+                    sh.violate("residue", record, "the terminal shows %r, expected %r (what is above the bar, then the %d-row frame)" % (scr, title_rows + rows, len(rows)))
                     return False
         if name in ("advance", "set_progress") and not frames and last_write is not None and CLOCK.now - last_write < cfg["minsec"]:
             throttled_advances += 1
@@ -298,7 +330,8 @@ def config_grid(tier):
     if tier == "quick":
         grid = [("ansi", 10, 10, 0.1, 0, None), ("plain", 10, 10, 0.1, 0, None), ("section", 3, 28, 0, 0, None), ("quiet", 3, 10, 0.1, 0, None),
                 ("ansi", 0, 28, 0.1, 0, None), ("plain", 0, 10, 0, 0, None), ("ansi", 50, 40, 1, 1, None), ("plain", 50, 1, 1, 2, None),
-                ("ansi", 3, 10, 0, 4, FORMATS[1]), ("ansi", 10, 10, 0.1, 0, FORMATS[2]), ("section", 0, 10, 0.1, 0, None), ("plain", 1, 28, 0.1, 4, FORMATS[1])]
+                ("ansi", 3, 10, 0, 4, FORMATS[1]), ("ansi", 10, 10, 0.1, 0, FORMATS[2]), ("section", 0, 10, 0.1, 0, None), ("plain", 1, 28, 0.1, 4, FORMATS[1]),
+                ("section-exact", 10, 10, 0, 0, None)]
     else:
         grid = []
         k = 0
@@ -307,7 +340,12 @@ def config_grid(tier):
                 for variant in range(2):
                     k += 1
                     grid.append((kind, mx, (1, 10, 28, 40)[k % 4], (0, 0.1, 1)[k % 3], (0, 1, 2, 4)[(k // 2) % 4], FORMATS[k % 3] if kind != "quiet" and mx else None))
+    if tier != "quick":
+        grid += [("section-exact", 10, 10, 0, 0, None), ("section-exact", 3, 28, 0.1, 1, FORMATS[1]), ("section-exact", 50, 40, 0, 2, None)]
     for kind, mx, bw, ms, v, fmt in grid:
+        if kind == "section-exact":
+            out.append(dict(out="section", max=mx, bw=bw, minsec=ms, verbosity=v, fmt=fmt, cols="exact"))
+            continue
         out.append(dict(out=kind, max=mx, bw=bw, minsec=ms, verbosity=v, fmt=fmt))
     return out
 
@@ -344,6 +382,8 @@ def run(sh, spec):
             fmt = rng.choice(FORMATS) if (mx and kind != "quiet") else None
             cfg = dict(out=kind, max=mx, bw=rng.choice([1, 2, 10, 28, 40]), minsec=rng.choice([0, 0.1, 1]), verbosity=rng.choice([0, 1, 2, 4]), fmt=fmt,
                        via_io=rng.random() < 0.25, maxsec=rng.choice([None, None, 0.02, 0.5, 3]))
+            if kind == "section" and rng.random() < 0.4:
+                cfg["cols"] = "exact"
             n = rng.randint(1, 60) if rng.random() < 0.3 else rng.randint(1, 12)
             ops = [("start",)] if rng.random() < 0.8 else []
             ops += [rng.choice(OPS) for _ in range(n)]
